@@ -6,6 +6,7 @@ pub mod dest;
 pub mod dso;
 pub mod dumper;
 pub mod elf;
+pub mod faultfs;
 pub mod helpers;
 pub mod layout;
 pub mod md;
